@@ -193,6 +193,7 @@ func c40(c *an.Check) {
 	nND := c.NilDerefGuard("NILDEREF", "network decoder: (value, error) results and possibly-absent message fields dereferenced only when known present", fns, nilSafeRecv(p))
 	an.NilProducer = nil
 	c.Note("NILDEREF examined %d (value, error) call sites in %d decoder functions", nND, len(fns))
+	decodeIntoZeroMessage(c, "network decoders decode into a zero message", fns)
 	if c.Tier == "thorough" {
 		// whole-repository sweep of the two panic/aliasing rules: functions outside the decoder surface are cross-reference
 		// notes (they are not reachable from network input by this property's anchors), inside it they are obligations
